@@ -93,6 +93,10 @@ def run_shard(shard, ctx):
             for ks in (("FLAT", "SPARSE", "FLAT"), ("SPARSE",), ("VMFS", "VMFSSPARSE"), ("SESPARSE", "FLAT")):
                 run_case({"kind": "vmdk", "extents": [[k, SIZES[j % 3], "RW", NAMES[j % 6] + str(j)] for j, k in enumerate(ks)],
                           "eol": eol}, ctx)
+        # four and five extents of unequal sizes whose sum makes the last one start where equally sized extents would put it
+        for sizes in ([32, 48, 16, 24], [32, 16, 48, 24], [16, 24, 8, 40], [24, 8, 40, 24, 16], [40, 40, 40, 40], [8, 16, 24, 32, 40]):
+            for kinds in (("FLAT",) * 5, ("SPARSE", "FLAT", "SESPARSE", "VMFS", "ZERO"), ("VMFSSPARSE", "SPARSE", "FLAT", "FLAT", "SPARSE")):
+                run_case({"kind": "vmdk", "extents": [[kinds[j], sz, "RW", f"part{j}"] for j, sz in enumerate(sizes)]}, ctx)
         # descriptors opened by a relative name; the working directory changes before the first read
         for ks in itertools.product(("FLAT", "VMFS", "SPARSE", "SESPARSE", "ZERO"), repeat=2):
             run_case({"kind": "vmdk", "extents": [[k, SIZES[j], "RW", NAMES[j] + str(j)] for j, k in enumerate(ks)], "relative": True}, ctx)
